@@ -894,6 +894,44 @@ def ref_mixture_logpdf(spec: dict, x: np.ndarray) -> np.ndarray:
     return sp.logsumexp(comp + lw[None, :], axis=1)
 
 
+def check_mixture_bounds(part: Part) -> None:
+    """Mixture log-density exactly AT the truncation bounds, over a lattice of non-dyadic (mu, sigma):
+    the bounds and the point are standardised by separate expressions inside the mixture code, so a
+    1-ulp disagreement between them would put x == low / x == high outside the support (-inf)."""
+    T, E, pd, sp, st = _mods()
+    mus = [0.2, 0.3, -0.7, 0.1, 0.55, -0.35]
+    sigmas = [0.7, 1.3, 0.3, 0.9, 1.7, 0.11]
+    for low, high in ((-1.0, 1.0), (0.0, 1.0), (-5.0, 5.0), (0.1, 0.7)):
+        for mu in mus:
+            for sigma in sigmas:
+                mix = pd._MixtureOfProductDistribution(
+                    np.array([1.0]), [pd._BatchedTruncNormDistributions(np.array([mu]), np.array([sigma]), low, high)])
+                x = np.array([[low], [high], [(low + high) / 2]])
+                part.add("evaluations", 3)
+                part.add("mixture_bound_points", 2)
+                rep0 = {"fn": "mixture-at-bounds", "args": {"low": low, "high": high, "mu": mu, "sigma": sigma}}
+                try:
+                    ours = np.asarray(mix.log_pdf(x), dtype=float)
+                except Exception as e:
+                    part.violation(f"mixture.log_pdf|at-bounds|exception:{type(e).__name__}", dict(rep0, error=str(e)))
+                    continue
+                a, b = (low - mu) / sigma, (high - mu) / sigma
+                ref = st.truncnorm.logpdf(x[:, 0], a, b, loc=mu, scale=sigma)
+                for r, where in enumerate(("x==low", "x==high", "midpoint")):
+                    rep = dict(rep0, x=float(x[r, 0]), expected=float(ref[r]), observed=float(ours[r]))
+                    if np.isnan(ours[r]) or not np.isfinite(ref[r]):
+                        if np.isnan(ours[r]):
+                            part.violation(f"mixture.log_pdf|at-bounds {where}|nan", rep)
+                        continue
+                    if ours[r] == -INF:
+                        part.violation(f"mixture.log_pdf|at-bounds {where}|support-mismatch", rep)
+                        continue
+                    part.add("distinct_nontrivial")
+                    err = abs(ours[r] - ref[r]) / max(1.0, abs(ref[r]))
+                    if not err <= TOL_MIX:
+                        part.violation(f"mixture.log_pdf|at-bounds {where}|log-abs-err", dict(rep, error=err, tolerance=TOL_MIX))
+
+
 def check_mixture(part: Part, specs: list[dict], n_samples: int) -> None:
     T, E, pd, sp, st = _mods()
     for si, spec in enumerate(specs):
@@ -1001,6 +1039,8 @@ def worker(task: tuple) -> dict:
         check_batch(part, task[1], Q_LATTICE[1:-1] + [0.0, 1.0])
     elif kind == "mix":
         check_mixture(part, task[1], task[2])
+    elif kind == "mixbounds":
+        check_mixture_bounds(part)
     else:
         raise ValueError(kind)
     return part.out()
@@ -1033,6 +1073,7 @@ def plan(tier: str) -> list[tuple]:
     specs = mixture_specs(tier)
     for c in chunks(specs, 16 if thorough else 8):
         tasks.append(("mix", c, 64 if thorough else 16))
+    tasks.append(("mixbounds",))
     return tasks
 
 
